@@ -165,7 +165,9 @@ def oracle(c, obs):
                 t, lo, hi = [float(x) for x in name.split("@")[1].rsplit(".", 1)[0].split(",")]
                 want = t
             for v in [x for x in vals.split(",") if x]:
-                ct, rest = v.split("=")
+                ct, rest = v.split("=", 1)
+                if rest.startswith("!unclamped"):
+                    return "accessory constructor %s: the declared range of its characteristic %s is not in force (a value beyond it is stored: %s)" % (name.rsplit(".", 1)[0], ct, rest[10:].replace("_", " "))
                 val, mn, mx = [num(x) for x in rest.split("/")]
                 if val is not None and (mn is not None and val < mn or mx is not None and val > mx):
                     return "accessory constructor %s returns characteristic %s with value %s outside its declared range [%s, %s]" % (name.rsplit(".", 1)[0], ct, val, mn, mx)
